@@ -1,8 +1,108 @@
-(* C20 -- TeamCity output is a balanced, correctly escaped service-message stream.  Only statements; proofs are in C20_Proofs.v. *)
+(* C20 -- TeamCity output is a balanced, correctly escaped service-message stream.
+   Only statements; proofs are in C20_Escape.v, C20_Parse.v, C20_Proofs.v. *)
 From Coq Require Import NArith Bool List.
-From CppUVerif Require Import lib.Str C16_Events C20_Model C20_Proofs.
+From CppUVerif Require Import lib.Str C16_Events C20_Model C20_Escape C20_Parse C20_Proofs.
 Import ListNotations.
 Local Open Scope N_scope.
+
+(* decoding the output of printEscaped by the TeamCity rules returns the original text, and the escaped text has no ' [ ] LF CR
+   that is not introduced by | (so it cannot end the value or the message) -- all byte strings *)
+Theorem C20_escape_roundtrip : forall s, tc_unescape (tc_escape s) = Some s /\ no_raw_special (tc_escape s) = true.
+Proof. exact escape_roundtrip. Qed.
+Print Assumptions C20_escape_roundtrip.
+
+(* a value that decodes at all has no raw special character, and decoding is compositional (values are printed in pieces) *)
+Theorem C20_wellformed_value_has_no_raw_special : forall v u, tc_unescape v = Some u -> no_raw_special v = true.
+Proof. exact unescape_some_no_raw. Qed.
+Print Assumptions C20_wellformed_value_has_no_raw_special.
+
+Theorem C20_unescape_compositional : forall a a' b b',
+  tc_unescape a = Some a' -> tc_unescape b = Some b' -> tc_unescape (a ++ b) = Some (a' ++ b').
+Proof. exact tc_unescape_app. Qed.
+Print Assumptions C20_unescape_compositional.
+
+(* the parser's value state decodes exactly as the textbook tc_unescape does *)
+Theorem C20_parser_value_is_unescape : forall v u, tc_unescape v = Some u ->
+  forall nm attrs k acc rest, run_sm (MVal nm attrs k acc) (v ++ rest) = run_sm (MVal nm attrs k (rev u ++ acc)) rest.
+Proof. exact val_run. Qed.
+Print Assumptions C20_parser_value_is_unescape.
+
+(* the registry's loop with its groupStart flag brackets exactly the maximal runs of equally named groups *)
+Theorem C20_registry_order : forall ts, events_of ts = flat_map seg_events (segments ts).
+Proof. exact reg_loop_segments. Qed.
+Print Assumptions C20_registry_order.
+
+(* the parser run on any sequence of well-formed printed messages (identifier names, distinct keys, unescaped pieces free of
+   special characters) followed by any text without # returns exactly the messages that were printed *)
+Theorem C20_parse_print : forall items trailer, forallb item_ok items = true -> no_hash trailer = true ->
+  tc_parse (flat_map item_print items ++ trailer) = Some (msgs_of_items items).
+Proof. exact parse_items. Qed.
+Print Assumptions C20_parse_print.
+
+(* what the (repaired) writer prints for a run, callback by callback through currtest_ / currGroup_ / groupOpen_ *)
+Theorem C20_writer_items : forall dur ts, tc_items Esc true dur tc_init (events_of ts) = flat_map (seg_items dur) (segments ts).
+Proof. exact run_items. Qed.
+Print Assumptions C20_writer_items.
+
+(* round trip of a whole run: the stream (followed by any summary text without #) parses to messages_of -- all byte strings
+   as names, paths and messages, all pass/fail/ignore patterns, test bodies that do not print *)
+Theorem C20_stream : forall dur ts trailer, forallb noprint ts = true -> no_hash trailer = true ->
+  tc_parse (render_tc dur ts ++ trailer) = Some (messages_of dur ts).
+Proof. exact stream. Qed.
+Print Assumptions C20_stream.
+
+(* messages_of is balanced: every suite start has one finish of the same name, every test start inside a suite one finish of
+   the same name, ignored / failed messages name the open test *)
+Theorem C20_balanced : forall dur ts, balanced (messages_of dur ts) = true.
+Proof. exact balanced_messages. Qed.
+Print Assumptions C20_balanced.
+
+(* messages_of is faithful: per group one suite bracket with the group's name, per test one bracket with the test's name,
+   testIgnored iff ignored, one testFailed per failure in order with the failure's text and location *)
+Theorem C20_messages_faithful : forall dur ts, faithful (segments ts) (messages_of dur ts) = true.
+Proof. exact faithful_messages. Qed.
+Print Assumptions C20_messages_faithful.
+
+(* the executable oracle used on the implementation's stream accepts every stream the model writes *)
+Theorem C20_run_meets_spec : forall s, valid s = true -> spec s (run s) = true.
+Proof. exact run_meets_spec. Qed.
+Print Assumptions C20_run_meets_spec.
+
+Theorem C20_run_meets_spec_with_text : forall s trailer, valid s = true -> no_hash trailer = true -> spec s (run s ++ trailer) = true.
+Proof. exact run_meets_spec_text. Qed.
+Print Assumptions C20_run_meets_spec_with_text.
+
+(* spec = the stream parses, the messages are balanced and faithful to the scenario *)
+Theorem C20_spec_reads : forall s o, spec s o = true <->
+  exists ms, tc_parse o = Some ms /\ balanced ms = true /\ faithful (segments (s_tests s)) ms = true.
+Proof. exact spec_reads. Qed.
+Print Assumptions C20_spec_reads.
+
+(* the code before the two `fix:` commits for D15 violated the property *)
+Theorem C20_run_old_path_refuted : ~ (forall s, valid s = true -> spec s (run_old_path s) = true).
+Proof. exact run_old_path_refuted. Qed.
+Print Assumptions C20_run_old_path_refuted.
+
+Theorem C20_run_old_group_refuted : ~ (forall s, valid s = true -> spec s (run_old_group s) = true).
+Proof. exact run_old_group_refuted. Qed.
+Print Assumptions C20_run_old_group_refuted.
+
+(* the parser is strict where the property needs it: a raw [ ] CR LF inside a value, a quote not followed by space or ],
+   an unknown escape, and anything after the closing ] are rejected *)
+Theorem C20_parser_rejects_raw_special : forall nm attrs k acc c rest, raw_forbidden c = true -> c <> 39 ->
+  run_sm (MVal nm attrs k acc) (c :: rest) = None.
+Proof. exact value_rejects_raw. Qed.
+Print Assumptions C20_parser_rejects_raw_special.
+
+Theorem C20_parser_quote_ends_value : forall nm attrs k acc c rest, c <> 32 -> c <> 93 ->
+  run_sm (MVal nm attrs k acc) (39 :: c :: rest) = None.
+Proof. exact value_quote_ends. Qed.
+Print Assumptions C20_parser_quote_ends_value.
+
+Theorem C20_parser_rejects_unknown_escape : forall nm attrs k acc d rest, unesc_char d = None ->
+  run_sm (MVal nm attrs k acc) (124 :: d :: rest) = None.
+Proof. exact value_rejects_unknown_escape. Qed.
+Print Assumptions C20_parser_rejects_unknown_escape.
 
 Theorem C20_hypotheses_satisfiable :
   valid example_run = true /\ length (messages_of 42 (s_tests example_run)) = 14%nat /\ spec example_run (run example_run) = true
